@@ -7,9 +7,11 @@
 //    parallel joins) is therefore NOT covered; those functions are not extracted.
 //  * `vec_get_unchecked(_mut)`: N19 target for `X.get_unchecked(i)` / `X.get_unchecked_mut(i)`; the documented safety
 //    condition (index in bounds) is the precondition.
-//  * `Vec::set_len(n)`: the first min(old len, n) elements are kept; elements beyond the old length are arbitrary
-//    (for MaybeUninit elements: unspecified `mv()`); the capacity precondition is not modelled (Vec::reserve's
-//    allocation failure aborts).
+//  * `Vec::set_len(n)`: REQUIRES n <= capacity (its documented safety condition); the first min(old len, n) elements are
+//    kept; elements beyond the old length are arbitrary (for MaybeUninit elements: unspecified `mv()`).
+//    Capacity is an uninterpreted function `vec_cap` of the vector with cap >= len; `vec_reserve(v, d)` (N10 target of
+//    `v.reserve(d)`) guarantees cap >= len + d and keeps the content (allocation failure aborts: not modelled);
+//    `vec_capacity(v)` (N10 target of `v.capacity()`) reads it.
 //  * 64-bit target: `usize` is 8 bytes.
 global size_of usize == 8;
 
@@ -71,10 +73,25 @@ pub unsafe fn vec_get_unchecked_mut<T>(v: &mut Vec<T>, i: usize) -> (r: &mut T)
     ensures *r == old(v)@[i as int], final(v)@ == old(v)@.update(i as int, *final(r))
 { unsafe { v.get_unchecked_mut(i) } }
 
-pub assume_specification<T, A: core::alloc::Allocator> [Vec::<T, A>::set_len] (v: &mut Vec<T, A>, n: usize)
+pub uninterp spec fn vec_cap<T>(v: &Vec<T>) -> nat;
+pub broadcast axiom fn axiom_vec_cap<T>(v: &Vec<T>)
+    ensures #[trigger] vec_cap(v) >= v@.len();
+#[verifier::external_body]
+pub fn vec_reserve<T>(v: &mut Vec<T>, additional: usize)
+    ensures final(v)@ == old(v)@, vec_cap(final(v)) >= old(v)@.len() + additional
+{ v.reserve(additional) }
+#[verifier::external_body]
+pub fn vec_capacity<T>(v: &Vec<T>) -> (r: usize)
+    ensures r == vec_cap(v)
+{ v.capacity() }
+// N10 target of `v.set_len(n)`
+#[verifier::external_body]
+pub unsafe fn vec_set_len<T>(v: &mut Vec<T>, n: usize)
+    requires n <= vec_cap(old(v))
     ensures
         final(v)@.len() == n,
-        forall|i: int| 0 <= i < n && i < old(v)@.len() ==> final(v)@[i] == old(v)@[i];
+        forall|i: int| 0 <= i < n && i < old(v)@.len() ==> final(v)@[i] == old(v)@[i],
+{ unsafe { v.set_len(n) } }
 
 pub assume_specification<T: core::cmp::Ord> [core::cmp::min] (a: T, b: T) -> (r: T)
     ensures r == a || r == b;
